@@ -46,6 +46,11 @@ def ref_terms(spec, refvals: dict) -> dict:
                 x = np64(refvals[f"{it['name']}_value"])
                 lp = R.logpdf(D["fam"], x, p)
                 terms.append({"name": it["name"], "kind": "var", "role": it.get("role"), "lp": np.asarray(lp), "per_obs": D.get("per_obs", True)})
+        elif it["k"] == "calc" and it.get("wrap") and it.get("wdist"):
+            D = it["wdist"]
+            p = {k: rv(r) for k, r in D["args"].items()}
+            lp = R.logpdf(D["fam"], np64(refvals[it["name"]]), p)
+            terms.append({"name": it["wrap"], "kind": "weak-var", "role": None, "lp": np.asarray(lp), "per_obs": D.get("per_obs", True)})
         elif it["k"] == "baredist":
             D = it["dist"]
             p = {k: rv(r) for k, r in D["args"].items()}
